@@ -986,7 +986,8 @@ func checkC02(c *Ctx) {
 	bounds := map[string]any{}
 	all := "{1, 2, 3, 4, 5, 6}"
 	if !c.Thorough() {
-		big := []string{"{3}", "{5}"}[int(c.Seed%2)] // the two smaller fixed inputs with selectors; all six at <= 3 in the thorough tier
+		big := []string{"{3}", "{5}"}[int(c.Seed%2)]    // the two smaller fixed inputs with selectors; all six at <= 3 in the thorough tier
+		globIn := []string{"{6}", "{1}"}[int(c.Seed%2)] // arrays of three elements: with $index and a selector, or several values per file
 		runs = []c02Run{
 			{fam: "rules", alpha: "full", maxRules: 2, sel: all, nsel: "{0}"},
 			{fam: "rules", alpha: "full", maxRules: 3, sel: big, nsel: "{0}"},
@@ -996,11 +997,11 @@ func checkC02(c *Ctx) {
 			{fam: "sim", alpha: "full", maxRules: 6, maxFiles: 3, maxVals: 3, maxArr: 3, sel: "{}", nsel: "{0, 1, 2}", sim: 200},
 			{fam: "cells", alpha: "cells", maxRules: 2, sel: all, nsel: "{0}"},
 			{fam: "sim", alpha: "cells", maxRules: 6, maxFiles: 3, maxVals: 3, maxArr: 3, sel: "{}", nsel: "{0, 1, 2}", sim: 100},
-			{fam: "rules", alpha: "glob", maxRules: 2, sel: "{1, 6}", nsel: "{0}"},
+			{fam: "rules", alpha: "glob", maxRules: 2, sel: globIn, nsel: "{0}"},
 			{fam: "inputs", alpha: "full", maxFiles: 1, maxVals: 2, sel: "{}", nsel: "{1}", forms: "all"},
 			{fam: "sim", alpha: "glob", maxRules: 6, maxFiles: 3, maxVals: 3, maxArr: 3, sel: "{}", nsel: "{0, 1, 2}", sim: 100, forms: "all"},
 		}
-		bounds["globals"] = "all lists <= 2 of rules over the program's variable g (31 symbols: patterns `g`, `!g`, `g < 2`, bodies g = 0, g = 1, g++ after the print, in every rule kind) x fixed inputs 1 and 6; 8 x 100 random behaviours with such rules"
+		bounds["globals"] = "all lists <= 2 of rules over the program's variable g (31 symbols: patterns `g`, `!g`, `g < 2`, bodies g = 0, g = 1, g++ after the print, in every rule kind) x fixed input " + globIn + "; 8 x 100 random behaviours with such rules"
 		bounds["selector_forms"] = "12 forms of selector expression (paths $.k, $[\"k\"], ($.k); array literals [$.k], [$.k, $.k], [], [\"k\"], [0], [1, 2]; scalar literals) x 6 member shapes: one selector, one file of <= 2 values, x 2 rule lists; the 8 x 100 random behaviours of `globals` have 0..2 selectors of random forms"
 		bounds["cells"] = "all lists <= 2 of writing rules (34 symbols: $ = v, $.p = v, $file = v after the print; BEGINFILE / ENDFILE without a body) x 6 fixed inputs (several values per file; selectors selecting the same subtree twice, a subtree and the whole value); 8 x 100 random behaviours with writing rules and such selector lists"
 		bounds["rules"] = "all rule lists <= 2 over the 30-symbol alphabet x 6 fixed inputs, <= 3 x fixed input " + big + ", <= 4 over the 8-symbol core alphabet x input 6"
